@@ -97,7 +97,7 @@ SPECS = {
   "outside": ["vector lengths above the bound (the statement's 0..64)", "long strings", "old-style (< 1.1.1) compound values"],
   "assumptions": ["libhdf5 replaced by h5model (same-type element copy, vlen strings)"],
   "harnesses": [{"file": "C14_props.cpp", "defines": {"quick": ["-DVH_STEPS=2", "-DVH_MAXLEN=3"], "thorough": ["-DVH_STEPS=3", "-DVH_MAXLEN=4"]},
-     "entries": [{"entry": "vh_c14_values", "label": "vh_c14_values.t%d" % t, "fix": {"type": t}} for t in range(7)] + [{"entry": "vh_c14_create"}]}]},
+     "entries": [{"entry": "vh_c14_values", "label": "vh_c14_values.t%d" % t, "fix": {"type": t}} for t in range(7)] + [{"entry": "vh_c14_create", "label": "vh_c14_create.t%d" % t, "fix": {"type": t}} for t in range(7)]}]},
  "C13": {
   "explanation": "Full stack on the HDF5 model: bounded append histories over the five descriptor kinds with symbolic interval, offset and tick values (all non-NaN doubles), read back through getDimension/dimensions()/as*Dimension after every step and after reopen; setters on existing descriptors; alias dimension mirrored in both directions with symbolic data.",
   "bounds": {"quick": {"append_steps": 2, "ticks": "0..3 symbolic", "labels": "0..2", "data_frame_column": "0..4 of 3"}, "thorough": {"append_steps": 3}},
@@ -107,10 +107,10 @@ SPECS = {
      "entries": [{"entry": "vh_c13_append"}, {"entry": "vh_c13_modify"}, {"entry": "vh_c13_alias"}]}]},
  "C11": {
   "explanation": "Full stack on the HDF5 model's identifier table: with handles to every entity kind (and copies, a dimension, a DataView) alive or dropped, close() must leave zero open HDF5 identifiers of the file, isOpen() false, a second close a no-op; each of 16 uses of a stale handle must throw without touching or re-opening the file; the path can be truncated and reused afterwards.",
-  "bounds": {"live_handles": "all of harness/world.hpp + dimension + DataView, or none", "stale_uses": 16},
+  "bounds": {"live_handles": "all of harness/world.hpp + dimension + DataView, or none; 3 or 70 arrays plus half as many sections held in vectors", "stale_uses": 16},
   "outside": ["completeness of bytes on disk after flush/close, reopen after SIGKILL: crash points inside libhdf5/OS cannot be encoded (not applicable part)", "other processes"],
   "assumptions": ["libhdf5 replaced by h5model (identifier reference counts, weak file close degree)"],
-  "harnesses": [{"file": "C11_close.cpp", "entries": [{"entry": "vh_c11_close"}]}]},
+  "harnesses": [{"file": "C11_close.cpp", "entries": [{"entry": "vh_c11_close", "label": "vh_c11_close.d%d" % d, "fix": {"drop": d}} for d in range(2)] + [{"entry": "vh_c11_many", "label": "vh_c11_many.m%d" % m, "fix": {"many": m}} for m in range(2)]}]},
  "C12": {
   "explanation": "K: the real util::createId (boost mt19937 seeded from time(), basic_random_generator, uuids::to_string) executed in the engine: first three ids well-formed version-4 UUIDs and distinct. S: in the world file every entity id and the file id is well formed; across 17 operations (re-create by name, modify, replace, delete+create, reopen) no surviving entity's id changes, new entities get fresh ids, forceId changes only the file id.",
   "bounds": {"operations": 17, "ids_checked": "all entities of harness/world.hpp", "createId": "first 3 calls, time() concrete"},
@@ -130,11 +130,11 @@ SPECS = {
   "harnesses": [{"file": "C09_modes.cpp", "entries": [{"entry": "vh_c09_readonly", "label": "vh_c09_readonly.op%d" % o, "fix": {"op": o}} for o in range(40)]
         + [{"entry": "vh_c09_readwrite_overwrite", "label": "vh_c09_readwrite_overwrite.c%d" % c, "fix": {"case": c}} for c in range(5)]}]},
  "C04": {
-  "explanation": "Full stack on the HDF5 model: in the fully linked world file one of 21 entities (every kind, including link targets with several holders and subtree roots) is deleted by name, by id or by handle; every entity is then re-collected through the public getters and compared with the pre-state: deleted set unreachable, survivors' attributes/data identical, their link lists equal to the old ones minus links into the deleted set, also after reopen.",
-  "bounds": {"victims": 21, "ways": ["name", "id", "handle"], "graph": "harness/world.hpp (one target linked from up to 3 holders; source/section subtrees of depth 2)"},
+  "explanation": "Full stack on the HDF5 model: in the fully linked world file one of 22 entities (every kind, including link targets with several holders and subtree roots) is deleted by name, by id or by handle; every entity is then re-collected through the public getters and compared with the pre-state: deleted set unreachable, survivors' attributes/data identical, their link lists equal to the old ones minus links into the deleted set, also after reopen.",
+  "bounds": {"victims": 22, "ways": ["name", "id", "handle"], "graph": "harness/world.hpp (one target linked from up to 3 holders; source/section subtrees of depth 2)"},
   "outside": ["other link graphs", "links created after a reopen", "data-frame dimensions as holders"],
   "assumptions": ["libhdf5 replaced by h5model (hard-link counts, H5Iget_name semantics as validated by nix's test-suite)"],
-  "harnesses": [{"file": "C04_delete.cpp", "entries": [{"entry": "vh_c04_delete", "label": "vh_c04_delete.v%d" % v, "fix": {"victim": v}} for v in range(21)]}]},
+  "harnesses": [{"file": "C04_delete.cpp", "entries": [{"entry": "vh_c04_delete", "label": "vh_c04_delete.v%d" % v, "fix": {"victim": v}} for v in range(22)]}]},
  "C08": {
   "explanation": "Full stack on the HDF5 model: on a fully linked file one call from a menu of 51 calls the API must reject (each class of invalid argument the property names) is attempted; if it throws, the complete observation of the file (every public getter, data included) must equal the observation taken before the call, also after close+reopen.",
   "bounds": {"rejected_call_menu": 51, "file_state": "the fixed fully linked world of harness/world.hpp", "prefix_history": 0},
@@ -142,12 +142,12 @@ SPECS = {
   "assumptions": ["libhdf5 replaced by h5model", "unit grammar (boost::regex) replaced by a hand-written matcher of the same expressions"],
   "harnesses": [{"file": "C08_reject.cpp", "entries": [{"entry": e, "label": "%s.op%d" % (e, o), "fix": {"op": o}} for e in ("vh_c08_reject", "vh_c08_reject_reopen") for o in range(51)]}]},
  "C02": {
-  "explanation": "Full stack on the HDF5 model: a fully linked file (blocks, arrays with every dimension kind, data frame, tag, multi-tag, features, group, source and section trees, properties, metadata/section links) is mutated by a bounded history from a 39-entry menu (incl. alternating use of two handles to the same entity); handles held since creation must agree with freshly fetched ones with symbolic payloads, observed through every public getter, closed, reopened (ReadOnly and ReadWrite) and observed again; the two observations must be byte-identical.",
-  "bounds": {"quick": {"history_steps": 1, "menu": 39, "payload": "symbolic doubles"}, "thorough": {"history_steps": 2, "intermediate_reopen": True}},
+  "explanation": "Full stack on the HDF5 model: a fully linked file (blocks, arrays with every dimension kind, data frame, tag, multi-tag, features, group, source and section trees, properties, metadata/section links) is mutated by a bounded history from a 43-entry menu (incl. alternating use of two handles to the same entity); handles held since creation must agree with freshly fetched ones with symbolic payloads, observed through every public getter, closed, reopened (ReadOnly and ReadWrite) and observed again; the two observations must be byte-identical.",
+  "bounds": {"quick": {"history_steps": 1, "menu": 43, "payload": "symbolic doubles"}, "thorough": {"history_steps": 2, "intermediate_reopen": True}},
   "outside": ["that libhdf5 persists what it was given (bytes on disk, other processes)", "histories longer than the bound", "nesting depth > 4"],
   "assumptions": ["libhdf5 replaced by h5model; close() destroys every nix object, reopen builds fresh ones on the model's file table"],
   "harnesses": [{"file": "C02_reopen.cpp", "defines": {"quick": ["-DVH_STEPS=1"], "thorough": ["-DVH_STEPS=2"]},
-     "entries": [{"entry": e, "label": "%s.op%d" % (e, o), "fix": {"op#0": o}} for e in ("vh_c02_reopen_ro", "vh_c02_reopen_rw") for o in range(39)]}]},
+     "entries": [{"entry": e, "label": "%s.op%d" % (e, o), "fix": {"op#0": o}} for e in ("vh_c02_reopen_ro", "vh_c02_reopen_rw") for o in range(43)]}]},
  "C03": {
   "explanation": "Full stack (front-end + backend/hdf5 + h5x) on the HDF5 model: bounded create/delete histories per container kind, checked after every step and after close+reopen against a reference list in creation order.",
   "bounds": {"quick": {"history_steps": 3, "names": ["a", "b", "UUID-shaped", "", "a/b", "1 symbolic char in {a,b,c,/}", "(thorough: also 'A', 'a ', '..')"], "containers": 11},
